@@ -22,6 +22,12 @@ Alphabet ==
               fail |-> <<[t |-> "put", k |-> K1, v |-> <<1>>, prev |-> FALSE]>>], li |-> NoLI],
     [c |-> [t |-> "TXN", cmp |-> <<>>, succ |-> <<>>, fail |-> <<>>], li |-> NoLI],
     [c |-> [t |-> "SEQ", cmds |-> <<PutC(K1, <<1>>, FALSE), PutC(K1, <<>>, TRUE)>>], li |-> 9],
+    \* a sequence as a replication worker builds it (commands carry leader indices 6 and 8): what it does depends on
+    \* the recorded leader index, which an earlier entry of the SAME apply batch may have set
+    [c |-> [t |-> "SEQ", cmds |-> <<[t |-> "PUT", k |-> K1, v |-> <<1>>, prev |-> TRUE, sli |-> 7],
+                                     [t |-> "TXN", cmp |-> <<[k |-> K1, end |-> NoEnd, res |-> "EQUAL", hasVal |-> TRUE, val |-> <<1>>]>>,
+                                        succ |-> <<[t |-> "put", k |-> K2, v |-> <<1>>, prev |-> TRUE]>>,
+                                        fail |-> <<[t |-> "put", k |-> K1, v |-> <<>>, prev |-> TRUE]>>, sli |-> 9]>>], li |-> 8],
     [c |-> [t |-> "DUMMY"], li |-> 0],
     [c |-> [t |-> "DUMMY"], li |-> NoLI] }
 
